@@ -34,6 +34,8 @@ theorem decrypt_accepts_hash (d x1 y1 : Nat) (c3 c2 m : Bytes) (h : decryptParse
     Spec.SM3.hash (b32 sh.1 ++ m ++ b32 sh.2) = c3 := by
   intro sh
   unfold decryptParsed at h
+  split at h
+  · simp at h
   by_cases hc : onCurve (x1 % p) (y1 % p) = true
   · simp only [hc, Bool.not_true, Bool.false_eq_true, if_false] at h
     split at h
